@@ -3,6 +3,7 @@ package main
 import (
 	"encoding/json"
 	"fmt"
+	"go/types"
 	"os"
 	"path/filepath"
 	"sort"
@@ -127,6 +128,81 @@ func runChecks(repo, prop, tier, outDir, knownPath, explain, goarch string, star
 				fmt.Fprintf(os.Stderr, "%s=%d\n", k, v)
 			}
 		}
+	}
+	extra := map[string]interface{}{}
+	if tier == "thorough" && prop != "all" {
+		// (1) alternate architecture for the arithmetic properties
+		if prop == "C06" || prop == "C18" || prop == "C19" {
+			p2 := Load(repo, "386", nil)
+			a2 := NewAnalyzer(p2)
+			res2 := NewResults()
+			for _, s := range sets {
+				ruleSets[s](a2, res2)
+			}
+			n := 0
+			for _, o := range res2.Obls {
+				o.Key += "@386"
+				o.Rule += "@386"
+				res.Add(o)
+				n++
+			}
+			res.Undecided = append(res.Undecided, res2.Undecided...)
+			extra["goarch_386_instances"] = n
+			extra["goarch_386_uint_bytes"] = p2.Sizes.Sizeof(types.Typ[types.Uint])
+		}
+		// (2) guard-sensitivity sweep
+		var mine []*Obl
+		for _, o := range res.Obls {
+			if hasProp(o, prop) && !strings.HasSuffix(o.Key, "@386") {
+				mine = append(mine, o)
+			}
+		}
+		max := 40
+		if v := os.Getenv("LH_SWEEP_MAX"); v != "" {
+			fmt.Sscanf(v, "%d", &max)
+		}
+		sw, st := runSweep(repo, prop, goarch, mine, max)
+		extra["sensitivity"] = sw
+		for k, v := range st {
+			res.Stats["sweep."+k] = v
+		}
+		und := 0
+		for _, x := range sw {
+			if !x.Detected && x.Variants > 0 {
+				und++
+				fmt.Printf("SWEEP: guard at %s can be neutralised without any rule of %s noticing (redundant guard or blind spot); used by %v\n", x.Site, prop, x.UsedBy)
+			}
+		}
+		fmt.Printf("SWEEP: %d guard sites, %d swept, %d variants, %d sites detected, %d undetected\n", st["guard_sites"], st["guard_sites_swept"], st["variants"], st["detected"], und)
+	}
+	thoroughExtra = extra
+	if os.Getenv("LH_CATALOG") != "" {
+		type row struct{ rule, text, engine string; props map[string]bool; n int }
+		rows := map[string]*row{}
+		for _, o := range res.Obls {
+			rw := rows[o.Rule]
+			if rw == nil {
+				rw = &row{rule: o.Rule, text: o.Text, engine: o.Engine, props: map[string]bool{}}
+				rows[o.Rule] = rw
+			}
+			rw.n++
+			for _, p := range o.Props {
+				rw.props[p] = true
+			}
+		}
+		var names []string
+		for n := range rows {
+			names = append(names, n)
+		}
+		sort.Strings(names)
+		f, _ := os.Create(os.Getenv("LH_CATALOG"))
+		fmt.Fprintf(f, "# Rule catalogue (generated by `LH_CATALOG=<file> bin/lhcheck -prop all` from the rules evaluated on the current tree)\n\n")
+		fmt.Fprintf(f, "| rule | engine | properties | instances | text |\n|---|---|---|---|---|\n")
+		for _, n := range names {
+			rw := rows[n]
+			fmt.Fprintf(f, "| %s | %s | %s | %d | %s |\n", rw.rule, rw.engine, strings.Join(sortedSet(rw.props), " "), rw.n, strings.ReplaceAll(rw.text, "|", "\\|"))
+		}
+		f.Close()
 	}
 	return report(a, res, prop, tier, outDir, knownPath, start)
 }
@@ -313,6 +389,9 @@ func writeEvidence(a *Analyzer, res *Results, prop, tier, outDir string, obls []
 		"stats":               res.Stats,
 		"exit_code":           code,
 	}
+	for k, v := range thoroughExtra {
+		cov[k] = v
+	}
 	if level == "proof" && nDis+nKnown != nKeys {
 		// a proof-level claim needs all obligations discharged
 		cov["note"] = "not all obligations discharged on this run"
@@ -328,6 +407,8 @@ func writeEvidence(a *Analyzer, res *Results, prop, tier, outDir string, obls []
 }
 
 var propExplanation = map[string]string{}
+
+var thoroughExtra map[string]interface{}
 
 func explanationFor(prop string, obls []*Obl) string {
 	var sb strings.Builder
